@@ -392,8 +392,9 @@ func (g *SpecGen) ValueOfType(t cty.Type, depth int) cty.Value {
 		return cty.TupleVal(vs)
 	case t.IsObjectType():
 		m := map[string]cty.Value{}
-		for k, et := range t.AttributeTypes() {
-			m[k] = g.ValueOfType(et, depth-1)
+		atys := t.AttributeTypes()
+		for _, k := range SortedKeys(atys) { // (sorted: every random draw must replay)
+			m[k] = g.ValueOfType(atys[k], depth-1)
 		}
 		return cty.ObjectVal(m)
 	}
